@@ -7,7 +7,7 @@
 use arrow::compute::SortOptions;
 use arrow::datatypes::{DataType, Field, Schema, SchemaRef};
 use arrow::record_batch::RecordBatch;
-use chk_plan::evt::{GatedSourceExec, Item, MemSpillFactory, SpillFaults, World, int_batch, int_schema};
+use chk_plan::evt::{GatedSourceExec, Item, MemSpillStats, SpillFaults, World, int_batch, int_schema};
 use datafusion_common::{DataFusionError, JoinSide, JoinType, NullEquality, Result, ScalarValue};
 use datafusion_execution::TaskContext;
 use datafusion_execution::config::SessionConfig;
@@ -36,10 +36,16 @@ use datafusion_physical_plan::sorts::sort::SortExec;
 use datafusion_physical_plan::sorts::sort_preserving_merge::SortPreservingMergeExec;
 use datafusion_physical_plan::union::{InterleaveExec, UnionExec};
 use datafusion_physical_plan::windows::{BoundedWindowAggExec, WindowAggExec, create_window_expr};
-use datafusion_physical_plan::{ExecutionPlan, InputOrderMode};
+use datafusion_common::tree_node::TreeNodeRecursion;
+use datafusion_execution::{RecordBatchStream, SendableRecordBatchStream};
+use datafusion_physical_plan::execution_plan::{ChildrenPropertiesMode, ReplaceChildrenOptions};
+use datafusion_physical_plan::{DisplayAs, DisplayFormatType, ExecutionPlan, InputOrderMode, PlanProperties};
+use futures::{Stream, StreamExt};
+use std::pin::Pin;
+use std::task::{Context, Poll};
 use parking_lot::Mutex;
 use serde::{Deserialize, Serialize};
-use std::collections::BTreeSet;
+use std::collections::{BTreeMap, BTreeSet};
 use std::sync::Arc;
 use std::sync::atomic::{AtomicUsize, Ordering};
 
@@ -130,6 +136,27 @@ impl Shape {
     }
     /// the multiset of result rows is a function of the input alone (false: LIMIT without a total order
     /// picks rows that depend on arrival order -> only the row *count* is compared)
+    /// The shape contains a `RepartitionExec` that coalesces its output (every non-order-preserving one over a
+    /// bounded input).  Its input tasks flush the per-output residual batches in the iteration order of a
+    /// randomly seeded `HashMap` (`pull_from_input`: `output_channels.drain()`), so which output asks for memory /
+    /// spills first is not a function of the event order unless the coalescer never holds a residual (batch size 1).
+    pub fn has_coalescing_repartition(&self) -> bool {
+        matches!(
+            self,
+            Shape::RepartHash
+                | Shape::RepartRoundRobin
+                | Shape::Interleave
+                | Shape::HashJoinPartitioned
+                | Shape::AggFinalPartitioned
+                | Shape::SortOverHashJoin
+                | Shape::LimitOverSpmOverSort
+                | Shape::FilterOverUnionOverRepart
+                | Shape::JoinOverRepartOverAgg
+                | Shape::SmjOverSortOverRepart
+                | Shape::TopKOverAgg
+                | Shape::NljOverRepartRr
+        )
+    }
     pub fn exact_rows(&self) -> bool {
         !matches!(self, Shape::GlobalLimit | Shape::LocalLimit | Shape::LimitOverSpmOverSort)
     }
@@ -163,7 +190,7 @@ pub fn data(d: Data) -> Vec<Vec<Vec<Row>>> {
     match d {
         Data::A => vec![
             vec![vec![r(1, 10, 0), r(2, 20, 1)], vec![r(3, 30, 2), r(1, 40, 3)], vec![r(2, 50, 4), r(3, 60, 5)]],
-            vec![vec![r(2, 15, 6), r(3, 25, 7)], vec![r(1, 35, 8), r(5, 45, 9)]],
+            vec![vec![r(2, 16, 6), r(3, 25, 7)], vec![r(1, 35, 8), r(5, 45, 9)]],
         ],
         Data::B => vec![
             vec![vec![r(1, 110, 100), r(2, 120, 101)], vec![r(3, 130, 102), r(7, 140, 103)]],
@@ -197,8 +224,10 @@ pub enum Fault {
     /// item k of partition p of source s is an error (and the last item of that stream);
     /// k == number of batches = the error comes instead of the end of the stream
     Source { s: usize, p: usize, k: usize },
-    /// the k-th (0-based, over the whole query) try_grow on the memory pool is refused
-    Refuse { k: usize },
+    /// the k-th (0-based) try_grow of one memory consumer is refused; the consumer is named
+    /// `<MemoryConsumer name>#<n>` for the n-th consumer registered under that name in the query
+    /// (a per-consumer index does not depend on how the requests of different operators interleave)
+    Refuse { consumer: String, k: usize },
     SpillCreate { k: usize },
     SpillWrite { k: usize },
     SpillFinish { k: usize },
@@ -247,14 +276,23 @@ impl Spec {
 
 // ------------------------------------------------------------------ harness memory pool
 
-/// Wraps a real pool; counts `try_grow` calls and refuses the scripted ones.
+/// Wraps a real pool; counts `try_grow` calls per consumer and refuses the scripted ones.
 #[derive(Debug)]
 pub struct HarnessPool {
     inner: Arc<dyn MemoryPool>,
-    refuse: BTreeSet<usize>,
+    refuse: BTreeSet<(String, usize)>,
+    /// consumer id -> harness name, registrations per MemoryConsumer name, try_grow calls per harness name
+    book: Mutex<PoolBook>,
     pub try_grows: AtomicUsize,
     pub refused: AtomicUsize,
     pub peak: AtomicUsize,
+}
+
+#[derive(Debug, Default)]
+struct PoolBook {
+    names: std::collections::HashMap<usize, String>,
+    registered: BTreeMap<String, usize>,
+    requests: BTreeMap<String, usize>,
 }
 
 impl std::fmt::Display for HarnessPool {
@@ -264,10 +302,11 @@ impl std::fmt::Display for HarnessPool {
 }
 
 impl HarnessPool {
-    pub fn new(inner: Arc<dyn MemoryPool>, refuse: BTreeSet<usize>) -> Arc<Self> {
+    pub fn new(inner: Arc<dyn MemoryPool>, refuse: BTreeSet<(String, usize)>) -> Arc<Self> {
         Arc::new(HarnessPool {
             inner,
             refuse,
+            book: Default::default(),
             try_grows: AtomicUsize::new(0),
             refused: AtomicUsize::new(0),
             peak: AtomicUsize::new(0),
@@ -276,6 +315,10 @@ impl HarnessPool {
     fn note_peak(&self) {
         self.peak.fetch_max(self.inner.reserved(), Ordering::SeqCst);
     }
+    /// try_grow requests seen per consumer
+    pub fn requests(&self) -> BTreeMap<String, usize> {
+        self.book.lock().requests.clone()
+    }
 }
 
 impl MemoryPool for HarnessPool {
@@ -283,6 +326,13 @@ impl MemoryPool for HarnessPool {
         "HarnessPool"
     }
     fn register(&self, consumer: &MemoryConsumer) {
+        {
+            let mut b = self.book.lock();
+            let n = b.registered.entry(consumer.name().to_string()).or_insert(0);
+            let key = format!("{}#{}", consumer.name(), *n);
+            *n += 1;
+            b.names.insert(consumer.id(), key);
+        }
         self.inner.register(consumer)
     }
     fn unregister(&self, consumer: &MemoryConsumer) {
@@ -296,13 +346,19 @@ impl MemoryPool for HarnessPool {
         self.inner.shrink(reservation, shrink)
     }
     fn try_grow(&self, reservation: &MemoryReservation, additional: usize) -> Result<()> {
-        let k = self.try_grows.fetch_add(1, Ordering::SeqCst);
-        if self.refuse.contains(&k) {
+        self.try_grows.fetch_add(1, Ordering::SeqCst);
+        let (key, k) = {
+            let mut b = self.book.lock();
+            let c = reservation.consumer();
+            let key = b.names.get(&c.id()).cloned().unwrap_or_else(|| format!("{}#unregistered", c.name()));
+            let n = b.requests.entry(key.clone()).or_insert(0);
+            let k = *n;
+            *n += 1;
+            (key, k)
+        };
+        if self.refuse.contains(&(key.clone(), k)) {
             self.refused.fetch_add(1, Ordering::SeqCst);
-            return Err(DataFusionError::ResourcesExhausted(format!(
-                "{MEM_MARK} #{k}: {additional} bytes for {}",
-                reservation.consumer().name()
-            )));
+            return Err(DataFusionError::ResourcesExhausted(format!("{MEM_MARK}: request #{k} of {key} for {additional} bytes")));
         }
         let r = self.inner.try_grow(reservation, additional);
         self.note_peak();
@@ -313,6 +369,123 @@ impl MemoryPool for HarnessPool {
     }
     fn memory_limit(&self) -> MemoryLimit {
         self.inner.memory_limit()
+    }
+}
+
+// ------------------------------------------------------------------ in-memory spill backend
+
+/// In-memory `TempFileFactory` with fault injection (k-th create / write / finish over the whole query fails).
+/// Unlike a one-shot snapshot, a read stream behaves like `ReaderStream` over a real file that is still being
+/// appended to: every poll yields the bytes between the reader's offset and the current end of the file, and the
+/// stream ends when it is polled with nothing new to read.  The spill pool of `RepartitionExec` reads files while
+/// they are written and relies on exactly that.
+pub struct SpillBackend {
+    pub stats: Arc<MemSpillStats>,
+    faults: SpillFaults,
+}
+
+impl SpillBackend {
+    pub fn new(faults: SpillFaults) -> Arc<Self> {
+        Arc::new(SpillBackend { stats: Default::default(), faults })
+    }
+}
+
+fn injected(n: &AtomicUsize, at: Option<usize>, what: &str) -> Result<()> {
+    let k = n.fetch_add(1, Ordering::SeqCst);
+    if Some(k) == at {
+        return Err(DataFusionError::Execution(format!("{SPILL_MARK}: {what} #{k}")));
+    }
+    Ok(())
+}
+
+struct MemFile {
+    content: Arc<Mutex<Vec<u8>>>,
+    stats: Arc<MemSpillStats>,
+    faults: SpillFaults,
+}
+
+impl Drop for MemFile {
+    fn drop(&mut self) {
+        self.stats.live_files.fetch_sub(1, Ordering::SeqCst);
+    }
+}
+
+struct MemFileReader {
+    content: Arc<Mutex<Vec<u8>>>,
+    offset: usize,
+    opened: bool,
+    done: bool,
+}
+
+impl Stream for MemFileReader {
+    type Item = Result<bytes::Bytes>;
+    fn poll_next(mut self: Pin<&mut Self>, cx: &mut Context<'_>) -> Poll<Option<Self::Item>> {
+        if self.done {
+            return Poll::Ready(None);
+        }
+        if !self.opened {
+            // opening a real file is asynchronous: the first poll is Pending with an immediate wake-up
+            self.opened = true;
+            cx.waker().wake_by_ref();
+            return Poll::Pending;
+        }
+        let chunk = {
+            let c = self.content.lock();
+            let end = c.len().min(self.offset + 128 * 1024);
+            bytes::Bytes::copy_from_slice(&c[self.offset..end])
+        };
+        if chunk.is_empty() {
+            self.done = true;
+            return Poll::Ready(None);
+        }
+        self.offset += chunk.len();
+        Poll::Ready(Some(Ok(chunk)))
+    }
+}
+
+impl datafusion_execution::SpillFile for MemFile {
+    fn size(&self) -> Option<u64> {
+        Some(self.content.lock().len() as u64)
+    }
+    fn read_stream(&self) -> Result<Pin<Box<dyn Stream<Item = Result<bytes::Bytes>> + Send>>> {
+        Ok(Box::pin(MemFileReader { content: Arc::clone(&self.content), offset: 0, opened: false, done: false }))
+    }
+    fn open_writer(&self) -> Result<Box<dyn datafusion_execution::SpillWriter>> {
+        Ok(Box::new(MemFileWriter { content: Arc::clone(&self.content), stats: Arc::clone(&self.stats), faults: self.faults }))
+    }
+}
+
+struct MemFileWriter {
+    content: Arc<Mutex<Vec<u8>>>,
+    stats: Arc<MemSpillStats>,
+    faults: SpillFaults,
+}
+
+impl std::io::Write for MemFileWriter {
+    fn write(&mut self, buf: &[u8]) -> std::io::Result<usize> {
+        if let Err(e) = injected(&self.stats.writes, self.faults.write, "write") {
+            return Err(std::io::Error::other(e.to_string()));
+        }
+        self.content.lock().extend_from_slice(buf);
+        self.stats.bytes_written.fetch_add(buf.len(), Ordering::SeqCst);
+        Ok(buf.len())
+    }
+    fn flush(&mut self) -> std::io::Result<()> {
+        Ok(())
+    }
+}
+
+impl datafusion_execution::SpillWriter for MemFileWriter {
+    fn finish(&mut self) -> Result<()> {
+        injected(&self.stats.finishes, self.faults.finish, "finish")
+    }
+}
+
+impl datafusion_execution::TempFileFactory for SpillBackend {
+    fn create_temp_file(&self, _description: &str) -> Result<Arc<dyn datafusion_execution::SpillFile>> {
+        injected(&self.stats.created, self.faults.create, "create_temp_file")?;
+        self.stats.live_files.fetch_add(1, Ordering::SeqCst);
+        Ok(Arc::new(MemFile { content: Default::default(), stats: Arc::clone(&self.stats), faults: self.faults }))
     }
 }
 
@@ -530,7 +703,6 @@ pub fn build_plan(spec: &Spec) -> (Plan, Vec<Arc<GatedSourceExec>>) {
         NestedLoopJoin => {
             let l = coalesce(b.src(Data::B, "l"));
             let r = b.src(Data::A, "r");
-            // l.lv < r.rv + 100 is expressed on columns only: lid < rid never holds, lk < rv always -> use lk < rk
             let f = lt_filter(&l, "lk", &r, "rk");
             arc(NestedLoopJoinExec::try_new(l, r, Some(f), &JoinType::Left, None).expect("harness: NestedLoopJoinExec"))
         }
@@ -623,7 +795,8 @@ pub fn build_plan(spec: &Spec) -> (Plan, Vec<Arc<GatedSourceExec>>) {
 pub struct Probe {
     pub pool: Arc<HarnessPool>,
     pub sources: Vec<Arc<GatedSourceExec>>,
-    pub spill: Arc<MemSpillFactory>,
+    pub spill: Arc<SpillBackend>,
+    pub consumer: Arc<ConsumerStats>,
 }
 
 impl Probe {
@@ -635,12 +808,13 @@ impl Probe {
 
 pub type Slot = Arc<Mutex<Option<Probe>>>;
 
-pub fn make_ctx(spec: &Spec) -> (Arc<TaskContext>, Arc<HarnessPool>, Arc<MemSpillFactory>) {
+pub fn make_ctx(spec: &Spec) -> (Arc<TaskContext>, Arc<HarnessPool>, Arc<SpillBackend>) {
     let inner: Arc<dyn MemoryPool> = match spec.budget {
         Some(l) => Arc::new(FairSpillPool::new(l)),
         None => Arc::new(UnboundedMemoryPool::default()),
     };
-    let refuse: BTreeSet<usize> = spec.faults.iter().filter_map(|f| if let Fault::Refuse { k } = f { Some(*k) } else { None }).collect();
+    let refuse: BTreeSet<(String, usize)> =
+        spec.faults.iter().filter_map(|f| if let Fault::Refuse { consumer, k } = f { Some((consumer.clone(), *k)) } else { None }).collect();
     let pool = HarnessPool::new(inner, refuse);
     let mut sf = SpillFaults::default();
     for f in &spec.faults {
@@ -651,7 +825,7 @@ pub fn make_ctx(spec: &Spec) -> (Arc<TaskContext>, Arc<HarnessPool>, Arc<MemSpil
             _ => {}
         }
     }
-    let spill = MemSpillFactory::new(sf);
+    let spill = SpillBackend::new(sf);
     let rt = RuntimeEnvBuilder::new()
         .with_memory_pool(pool.clone() as Arc<dyn MemoryPool>)
         .with_disk_manager_builder(DiskManagerBuilder::default().with_temp_file_factory(spill.clone()))
@@ -668,8 +842,10 @@ pub fn make_ctx(spec: &Spec) -> (Arc<TaskContext>, Arc<HarnessPool>, Arc<MemSpil
 pub fn build_world(spec: &Spec, slot: &Slot, wrap: &dyn Fn(Plan, &Spec) -> Plan) -> World {
     let (plan, sources) = build_plan(spec);
     let plan = wrap(plan, spec);
+    let consumer: Arc<ConsumerStats> = Default::default();
+    let plan = consumer_model(plan, Arc::clone(&consumer));
     let (ctx, pool, spill) = make_ctx(spec);
-    *slot.lock() = Some(Probe { pool, sources: sources.clone(), spill: spill.clone() });
+    *slot.lock() = Some(Probe { pool, sources: sources.clone(), spill: spill.clone(), consumer });
     World {
         plan,
         sources,
@@ -679,6 +855,119 @@ pub fn build_world(spec: &Spec, slot: &Slot, wrap: &dyn Fn(Plan, &Spec) -> Plan)
         max_steps: spec.stop_at.unwrap_or(600),
         spill: Some(spill.stats.clone()),
     }
+}
+
+// ------------------------------------------------------------------ pass-through wrapper operator
+
+pub type StreamFn = Arc<dyn Fn(SendableRecordBatchStream, usize) -> SendableRecordBatchStream + Send + Sync>;
+
+/// Transparent operator of the harness: same properties as its input, every partition stream is
+/// passed through `f` (consumer model; planted defects of the detection demos).
+pub struct WrapExec {
+    label: &'static str,
+    input: Plan,
+    f: StreamFn,
+}
+
+impl WrapExec {
+    pub fn new(label: &'static str, input: Plan, f: StreamFn) -> Plan {
+        Arc::new(WrapExec { label, input, f })
+    }
+}
+
+impl std::fmt::Debug for WrapExec {
+    fn fmt(&self, f: &mut std::fmt::Formatter<'_>) -> std::fmt::Result {
+        write!(f, "WrapExec({})", self.label)
+    }
+}
+
+impl DisplayAs for WrapExec {
+    fn fmt_as(&self, _t: DisplayFormatType, f: &mut std::fmt::Formatter) -> std::fmt::Result {
+        write!(f, "WrapExec({})", self.label)
+    }
+}
+
+impl ExecutionPlan for WrapExec {
+    fn name(&self) -> &'static str {
+        "WrapExec"
+    }
+    fn properties(&self) -> &Arc<PlanProperties> {
+        self.input.properties()
+    }
+    fn children(&self) -> Vec<&Arc<dyn ExecutionPlan>> {
+        vec![&self.input]
+    }
+    fn replace_children(self: Arc<Self>, children: Vec<Plan>, _: ReplaceChildrenOptions) -> Result<Plan> {
+        Ok(Arc::new(WrapExec { label: self.label, input: Arc::clone(&children[0]), f: Arc::clone(&self.f) }))
+    }
+    fn apply_expressions(&self, _f: &mut dyn FnMut(&Arc<dyn PhysicalExpr>) -> Result<TreeNodeRecursion>) -> Result<TreeNodeRecursion> {
+        Ok(TreeNodeRecursion::Continue)
+    }
+    fn with_new_children(self: Arc<Self>, children: Vec<Plan>) -> Result<Plan> {
+        self.replace_children(children, ReplaceChildrenOptions::new(ChildrenPropertiesMode::Recompute))
+    }
+    fn execute(&self, partition: usize, context: Arc<TaskContext>) -> Result<SendableRecordBatchStream> {
+        Ok((self.f)(self.input.execute(partition, context)?, partition))
+    }
+}
+
+/// What the streams did when polled once more right after their first error (informational).
+#[derive(Debug, Default)]
+pub struct ConsumerStats {
+    pub after_error_none: AtomicUsize,
+    pub after_error_err: AtomicUsize,
+    pub after_error_batch: AtomicUsize,
+    pub after_error_pending: AtomicUsize,
+    pub after_error_panic: AtomicUsize,
+}
+
+/// The consumer of a query stream as every caller in DataFusion is written (`collect`, `try_collect`,
+/// the forwarding tasks of the exchange operators): it stops at the first error and drops the stream.
+struct ConsumerStream {
+    schema: SchemaRef,
+    inner: Option<SendableRecordBatchStream>,
+    stats: Arc<ConsumerStats>,
+}
+
+impl Stream for ConsumerStream {
+    type Item = Result<RecordBatch>;
+    fn poll_next(mut self: Pin<&mut Self>, cx: &mut Context<'_>) -> Poll<Option<Self::Item>> {
+        let Some(inner) = self.inner.as_mut() else { return Poll::Ready(None) };
+        match inner.poll_next_unpin(cx) {
+            Poll::Ready(Some(Err(e))) => {
+                // classify what a consumer that kept polling would see next, then stop
+                let c = match std::panic::catch_unwind(std::panic::AssertUnwindSafe(|| inner.poll_next_unpin(cx))) {
+                    Ok(Poll::Ready(None)) => &self.stats.after_error_none,
+                    Ok(Poll::Ready(Some(Err(_)))) => &self.stats.after_error_err,
+                    Ok(Poll::Ready(Some(Ok(_)))) => &self.stats.after_error_batch,
+                    Ok(Poll::Pending) => &self.stats.after_error_pending,
+                    Err(_) => &self.stats.after_error_panic,
+                };
+                c.fetch_add(1, Ordering::SeqCst);
+                self.inner = None;
+                Poll::Ready(Some(Err(e)))
+            }
+            Poll::Ready(None) => {
+                self.inner = None;
+                Poll::Ready(None)
+            }
+            other => other,
+        }
+    }
+}
+
+impl RecordBatchStream for ConsumerStream {
+    fn schema(&self) -> SchemaRef {
+        Arc::clone(&self.schema)
+    }
+}
+
+pub fn consumer_model(plan: Plan, stats: Arc<ConsumerStats>) -> Plan {
+    WrapExec::new(
+        "consumer",
+        plan,
+        Arc::new(move |s, _| Box::pin(ConsumerStream { schema: s.schema(), inner: Some(s), stats: Arc::clone(&stats) })),
+    )
 }
 
 /// every output row as text (any column type), for multiset comparison
